@@ -50,6 +50,10 @@ var lcKinds = map[string]func() (interceptor.Factory, error){
 	"pli": func() (interceptor.Factory, error) {
 		return intervalpli.NewReceiverInterceptor(intervalpli.GeneratorInterval(lcInterval))
 	},
+	// periodic PLIs switched off (a legal option value): only the PLI on bind / ForcePLI remains
+	"pli0": func() (interceptor.Factory, error) {
+		return intervalpli.NewReceiverInterceptor(intervalpli.GeneratorInterval(0))
+	},
 	"nackgen": func() (interceptor.Factory, error) {
 		return nack.NewGeneratorInterceptor(nack.GeneratorInterval(lcInterval), nack.GeneratorSize(64))
 	},
@@ -272,7 +276,7 @@ func lcRun(t *testing.T, ops []string, o *Out) {
 						return
 					}
 					switch a["kind"] {
-					case "rr", "sr", "pli", "nackgen", "chainrr", "chainpli":
+					case "rr", "sr", "pli", "pli0", "nackgen", "chainrr", "chainpli":
 						s.exact = true
 					}
 					for _, k := range parseInts(a["failat"]) {
@@ -641,8 +645,11 @@ func init() {
 				ops = append(ops, "adv ms=25", "close", "w ssrc=2 seq=99", "r ssrc=2", "rtcp", "adv ms=25")
 			case 1: // streams before the RTCP writer exists
 				ops = append(ops, "br ssrc=1", "br ssrc=2", "bl ssrc=1", "bl ssrc=2", "bindw", "adv ms=15", "ur ssrc=2", "adv ms=25", "close")
-			case 2: // close first, then everything
+			case 2: // close first, then everything (and Close once more where that is defined)
 				ops = append(ops, "close", "bindw", "bindr", "bl ssrc=1", "br ssrc=1", "w ssrc=1 seq=1", "r ssrc=1", "rtcp", "ul ssrc=1", "ur ssrc=1", "adv ms=25")
+				if kind != "pacing" && kind != "ccgcc" {
+					ops = append(ops, "close", "adv ms=5")
+				}
 			case 3: // re-bind the same SSRC
 				ops = append(ops, "bindw", "br ssrc=1", "bl ssrc=1")
 				traffic([]int{1})
@@ -668,7 +675,7 @@ func init() {
 				traffic([]int{1})
 				ops = append(ops, "adv ms=3")
 				switch kind {
-				case "rr", "sr", "pli", "nackgen", "chainrr", "chainpli":
+				case "rr", "sr", "pli", "pli0", "nackgen", "chainrr", "chainpli":
 					ops = append(ops, fmt.Sprintf("gateclose2 ms=%d", r.Pick(4, 12, 25)))
 				default:
 					ops = append(ops, "close")
@@ -701,8 +708,10 @@ func init() {
 				closedAlready := false
 				for i := 0; i < n; i++ {
 					op := alphabet[r.Intn(len(alphabet))]
-					if op == "close" && (closedAlready || r.Chance(1, 2)) {
-						op = "adv ms=12" // Close is issued at most once: io.Closer leaves a second Close undefined
+					// a second Close is generated except where the unchanged code panics on it (pacing, gcc: close of a
+					// closed channel — io.Closer leaves it undefined; recorded in DESIGN §8): it must not block either
+					if op == "close" && ((closedAlready && (kind == "pacing" || kind == "ccgcc" || r.Chance(1, 2))) || (!closedAlready && r.Chance(1, 2))) {
+						op = "adv ms=12"
 					}
 					if op == "close" {
 						closedAlready = true
